@@ -259,19 +259,30 @@ theorem C03_gen_ctor_idem (hswo : SWO lt) (l : List α) (hs : Sorted lt l) :
   rw [ctor_range_eq lt hswo l, insertAll_nil_sorted hswo l hs]
 
 /-- `merge` (both overloads) on the code as it is now computes the model's `mergeFrom`: the elements of the other set without an
-    equivalent in `*this` move, the others stay, both sets keep their order.  The overload for the same comparator type compares
-    with the comparator object of `*this` only and needs the other set to be ordered by it -/
-theorem C03_gen_merge (hswo : SWO lt) (l : List α) (hs : Sorted lt l) (lt_o : α → α → Bool) (o : List α) :
+    equivalent in `*this` move, the others stay, both sets keep their order.  The overload for the same comparator type needs no
+    more than the invariants of the two sets: it runs the two-pointer loop only when the comparator TYPE is stateless (`stateless`,
+    the value of `std::is_empty<Compare>::value`), and all objects of such a type compare alike -/
+theorem C03_gen_merge (hswo : SWO lt) (l : List α) (hs : Sorted lt l) (lt_o : α → α → Bool) (o : List α) (stateless : Bool) :
     (∃ r, Gen.FlatSet.merge_other lt l lt_o o = some r ∧ (r.1, r.2.1) = mergeFrom lt l o ∧ Sorted lt r.1)
-    ∧ (Sorted lt o → ∃ r, Gen.FlatSet.merge lt l lt_o o = some r ∧ (r.1, r.2.1) = mergeFrom lt l o ∧ Sorted lt r.1) := by
+    ∧ (Sorted lt_o o → (stateless = true → lt_o = lt) →
+        ∃ r, Gen.FlatSet.merge lt l lt_o o stateless = some r ∧ (r.1, r.2.1) = mergeFrom lt l o ∧ Sorted lt r.1) := by
   have hsorted : Sorted lt (mergeFrom lt l o).1 := by
     rw [mergeFrom_eq_foldl]; exact foldl_mergeStepM_sorted hswo o l [] hs
   constructor
   · obtain ⟨c, hc⟩ := merge_other_eq hswo l hs lt_o o
     exact ⟨_, hc, rfl, hsorted⟩
-  · intro ho
-    obtain ⟨c, hc⟩ := merge_eq hswo l hs lt_o o ho
+  · intro ho hst
+    obtain ⟨c, hc⟩ := merge_eq_inv hswo l hs lt_o o stateless ho hst
     exact ⟨_, hc, rfl, hsorted⟩
+
+/-- V25, as it was: two sets of the same stateful comparator type, the other one ordered by ITS comparator object only.  The
+    two-pointer loop (the `stateless = true` arm, which ran unconditionally before the repair) leaves `*this` unordered;
+    the insertion loop does not.  `lt a b := a % 10 < b % 10`, `lt_o a b := a % 7 < b % 7` -/
+example :
+    let lt : Nat → Nat → Bool := fun a b => a % 10 < b % 10
+    let lt_o : Nat → Nat → Bool := fun a b => a % 7 < b % 7
+    (Gen.FlatSet.merge lt [12, 5] lt_o [8, 3] true).map (·.1) = some [12, 5, 8, 3]
+    ∧ (Gen.FlatSet.merge lt [12, 5] lt_o [8, 3] false).map (·.1) = some [12, 3, 5, 8] := by decide +kernel
 
 /-- what stays in the other set after `merge` is a subsequence of it (in particular still ordered by ITS comparator) -/
 theorem C03_gen_merge_rest (l o : List α) : (mergeFrom lt l o).2.Sublist o := by
